@@ -83,6 +83,7 @@ func runC03(c *Ctx) {
 	r.Rule("R3.8", "cursor discipline (= R4.4): in ReadWriter.Read / Write the byte cursor advances only by the count returned by readValue / writeValue for that cursor, so every field byte goes through the per-type codec of R3.2 (no bulk copy or side path)", 2)
 	ruleCursor(c, "R3.8")
 	ruleTypeAdmission(c, "R3.9")
+	ruleCodecCaches(c, "R3.10")
 }
 
 // R3.1
@@ -305,6 +306,66 @@ func ruleValueCodecs(c *Ctx, rule string) {
 					adm[ftConst[kk]] = true
 				}
 			}
+		}
+		synt := adm
+		adm = map[string]bool{}
+		{
+			// form-independent reading: the rejection of an enum wire type is the error return reached exactly when the
+			// looked-up type differs from every admitted constant (switch default, or a chain of != tests)
+			vals := map[ssa.Value]bool{}
+			for _, iff := range ifsIn(ini) {
+				cond, _ := stripNot(iff.Cond)
+				if bo, ok := cond.(*ssa.BinOp); ok && (bo.Op == token.EQL || bo.Op == token.NEQ) {
+					for _, side := range []ssa.Value{bo.X, bo.Y} {
+						if strings.HasPrefix(ex(side), "message.fieldTypeFromGo[") {
+							vals[side] = true
+						}
+					}
+				}
+			}
+			for v := range vals {
+				for _, ret := range retInstrs(ini) {
+					if len(ret.Results) != 1 || isNilConst(ret.Results[0]) {
+						continue
+					}
+					var sets []map[int64]bool
+					pinned := false
+					constFactsOnPaths(ini, v, ret.Block(), func(eq, ne map[int64]bool) {
+						if len(eq) > 0 {
+							pinned = true
+						}
+						cp := map[int64]bool{}
+						for k := range ne {
+							cp[k] = true
+						}
+						sets = append(sets, cp)
+					})
+					if pinned || len(sets) == 0 || len(sets[0]) < 2 {
+						continue
+					}
+					same := true
+					for _, st := range sets[1:] {
+						if len(st) != len(sets[0]) {
+							same = false
+						}
+						for k := range st {
+							if !sets[0][k] {
+								same = false
+							}
+						}
+					}
+					if same {
+						for k := range sets[0] {
+							if k != 0 {
+								adm[ftConst[k]] = true
+							}
+						}
+					}
+				}
+			}
+		}
+		if len(adm) == 0 {
+			adm = synt // rejection not located on the paths: the `== constant` tests as written
 		}
 		ok := len(adm) == 6
 		for t := range specEnumTypes {
@@ -562,6 +623,30 @@ func ruleCRCExtraPreimage(c *Ctx, rule string) {
 						okField = true
 					}
 				}
+			}
+		}
+	}
+	if !okField {
+		// the same selection written out: name = tag; if tag == "" { name = fieldGoToDef(Go name) }
+		for _, a := range litAllocs(ini, "message.decEncoderField") {
+			p, isPhi := litFields(a)["name"].(*ssa.Phi)
+			if !isPhi || len(p.Edges) != 2 {
+				continue
+			}
+			tag, conv := "", ""
+			for _, e := range p.Edges {
+				if es := ex(e); strings.Contains(es, "\"mavname\"") && strings.HasPrefix(es, "(reflect.StructTag).Get(") {
+					tag = es
+				} else if strings.HasPrefix(es, "message.fieldGoToDef(") && strings.HasSuffix(es, ".Name)") {
+					conv = es
+				}
+			}
+			// tag and Go name of one and the same struct field
+			if x := strings.TrimSuffix(strings.TrimPrefix(conv, "message.fieldGoToDef("), ".Name)"); tag != "(reflect.StructTag).Get("+x+".Tag,\"mavname\")" {
+				continue
+			}
+			if tag != "" && conv != "" && (selectsBy(ini, p, "("+tag+" == \"\")", conv, tag) || selectsBy(ini, p, "("+tag+" != \"\")", tag, conv)) {
+				okField = true
 			}
 		}
 	}
